@@ -16,12 +16,14 @@ SUITES = {
         "transactions/zz_verif_drv_test.go": "transactions_drv_test.go",
         "transactions/zz_verif_store_test.go": "transactions_store_test.go",
         "util/zz_verif_drv_test.go": "util_drv_test.go",
+        "client/zz_verif_match_test.go": "client_match_test.go",
     },
     "codec": {"pkg": "./packets1/", "run": "TestVerifCodec$", "driver": "codec", "timeout": "30m"},
     "topics": {"pkg": "./topics/", "run": "TestVerifTopics$", "driver": "topics", "timeout": "10m"},
     "tx": {"pkg": "./transactions/", "run": "TestVerifTx$", "driver": "tx", "timeout": "20m"},
     "store": {"pkg": "./transactions/", "run": "TestVerifStore$", "driver": "store", "timeout": "10m"},
     "idseq": {"pkg": "./util/", "run": "TestVerifIDSeq$", "driver": "idseq", "timeout": "10m"},
+    "match": {"pkg": "./client/", "run": "TestVerifMatch$", "driver": "match", "timeout": "20m"},
 }
 
 
@@ -116,5 +118,15 @@ PROPS = {
         "trusted_base": TB_COMMON + ["Bisquitt/Model/IdSeq.lean", "Go's sync.Mutex / sync.RWMutex"],
         "assumptions": ["a method whose body is Lock(); defer Unlock(); ... is atomic with respect to the others (sync.Mutex semantics)"],
         "explanation": "theorems c29_idseq, c29_idseq_fresh, c29_cycle_value, c29_overflow, c29_distinct, store_*, c29_lock_idsequence, c29_lock_store",
+    },
+    "C27": {
+        "level_text": "Lean theorem c27_match: the client's recursive match equals the positional statement of MQTT 3.1.1 topic-filter matching (specMatch) for ALL filters and topics; tie: the real split/match on every filter x topic pair over {a,b,/,+,#} up to length 4 (5 in thorough). The subscribe/unsubscribe-history half of C27 is decided by the client suite (when built) ",
+        "technique": "Lean 4 structural induction + exhaustive differential correspondence over a small alphabet",
+        "suites": ["match"],
+        "relevant": lambda line: line.startswith("DIFF match"),
+        "rule": "all 781 x 781 (filter, topic) pairs over the alphabet {a,b,/,+,#} with length <= 4, each evaluated by the real split+match and by the model; exhaustive for that space",
+        "trusted_base": TB_COMMON + ["Bisquitt/Model/Match.lean", "Spec/Match.lean specMatch as the reading of MQTT 3.1.1 section 4.7 ($-topics are not part of the statement)"],
+        "assumptions": [],
+        "explanation": "theorem c27_match (all filters/topics); exhaustive correspondence on the small alphabet",
     },
 }
